@@ -18,6 +18,7 @@ func init() {
 		Explain: "Decides the RPC client's subscriber-channel safety for every interleaving of incoming records with Stop/Close as lock-discipline facts: for each stream handler type (monitor, event stream, query) every send on a subscriber channel and the close of it happen while the handler's own mutex is held, the send is behind closed==false read in that critical section, the close is behind !closed with closed=true stored in the same section (exactly once, never a send after close); Cleanup is invoked only by the two deregistration functions, each only for entries it removed from the dispatch table under the dispatch lock; the handler's flags are only accessed under its mutex; and the record path from the connection (listen → respondSeq → Handle) contains no undischarged panic obligation.",
 		Run:     runC28,
 		Mutants: []Mutant{
+			{Name: "close-check-outside-section", File: "client/rpc_client.go", Func: "func (c *RPCClient) Close(", Old: "\tc.shutdownLock.Lock()\n\tdefer c.shutdownLock.Unlock()\n\n\tif !c.shutdown {\n", New: "\tif c.IsClosed() {\n\t\treturn nil\n\t}\n\tc.shutdownLock.Lock()\n\tdefer c.shutdownLock.Unlock()\n\n\tif true {\n", Expect: "R2|RPCClient:shutdownCh-closed-once"},
 			{Name: "cleanup-skips-close-before-init", File: "client/rpc_client.go", Func: "func (mh *monitorHandler) Cleanup(", Old: "\tmh.l.Lock()\n\tdefer mh.l.Unlock()\n", New: "\tmh.l.Lock()\n\tdefer mh.l.Unlock()\n\tif !mh.closed && !mh.init {\n\t\tmh.closed = true\n\t\treturn\n\t}\n", Expect: "R2|monitorHandler:cleanup-always-closes"},
 			{Name: "monitor-send-unlocked", File: "client/rpc_client.go", Func: "func (mh *monitorHandler) Handle(", Old: "\tmh.l.Lock()\n\tdefer mh.l.Unlock()\n\tif mh.closed {\n\t\treturn\n\t}\n", New: "\tif mh.closed {\n\t\treturn\n\t}\n", Expect: "R1"},
 			{Name: "stream-send-ignores-closed", File: "client/rpc_client.go", Func: "func (sh *streamHandler) Handle(", Old: "\tif sh.closed {\n\t\treturn\n\t}\n", New: "", Expect: "R1"},
@@ -116,6 +117,23 @@ func runC28(c *an.Ctx) {
 			c.Add(!locks.Held(call).HasW(lk), "R2", typ+":no-self-deadlock", call, "Handle does not hold its mutex when it deregisters itself (Cleanup takes the same mutex)", "lockset")
 		}
 	}
+	// the client's own shutdown channel: closed behind shutdown == false read in the very critical section that
+	// closes it (two racing Close calls must not both see "not yet shut down")
+	nSh := 0
+	for _, a := range an.FieldAccesses(fns, "RPCClient", "shutdownCh") {
+		if a.Kind != "close" {
+			continue
+		}
+		nSh++
+		why := guardReadInSection(a.Fn, a.Instr, an.Cmp{L: "$0.shutdown", Op: "==", R: "c:false"}, "RPCClient.shutdownLock")
+		c.Add(locks.Held(a.Instr).HasW("RPCClient.shutdownLock") && why == "", "R2", "RPCClient:shutdownCh-closed-once", a.Instr, "shutdownCh is closed under shutdownLock, behind shutdown == false tested in that same section "+why, "lockset + check-then-act in one section")
+		ok, _ := an.MustPassTo(a.Fn, nil, func(in ssa.Instruction) bool {
+			st, isS := in.(*ssa.Store)
+			return isS && an.Path(st.Addr) == "&$0.shutdown" && an.IsConstBool(st.Val, true)
+		}, func(in ssa.Instruction) bool { return in == a.Instr })
+		c.Add(ok, "R2", "RPCClient:shutdown-flag-before-close", a.Instr, "shutdown = true is stored before the channel is closed (in the same section)", "must-pass")
+	}
+	c.Floor("R2", "closes of RPCClient.shutdownCh", nSh, 1)
 	// R2 who invokes Cleanup
 	nInv := 0
 	for _, fn := range fns {
